@@ -33,7 +33,7 @@ from harness import httpr_gen as G
 
 MC_Q = {"Modes": '{"server"}', "Heads": "{FALSE}", "RLs": "{1, 3}", "HOSTs": "{1, 4}", "FRs": "{1, 2, 3, 5}", "FR2s": "{1, 5}",
         "XHs": "{1}", "BODYs": "{1, 2, 3, 4, 9}", "TAILs": "{1, 2}", "Dev": 1, "Sizes": "{1, 4}",
-        "Timeouts": "{TRUE}", "Shuts": "{TRUE}", "Responds": '{"sync", "async", "early", "earlydata"}'}
+        "Timeouts": "{TRUE}", "Shuts": "{TRUE}", "Responds": '{"sync", "async", "early", "earlydata", "raise"}'}
 GEN_Q = {"RLs": "{1, 2, 3}", "HOSTs": "{1, 2}", "FRs": "{1, 2, 3, 5, 9}", "FR2s": "{1, 3, 5}", "XHs": "{1, 3}",
          "BLANKs": "{1}", "BODYs": "{1, 2, 3, 4, 6, 9, 18}", "TAILs": "{1, 2}", "Dev": 1}
 GEN_T = {"RLs": "{1, 2, 3, 4, 5, 6, 7, 8, 9, 10, 11, 12, 13, 14, 15, 16, 17, 18, 19, 20}", "HOSTs": "{1, 2, 3, 4, 5, 6, 7, 8, 9, 10, 11, 12, 13, 14}", "FRs": "{1, 2, 3, 4, 5, 9, 10, 11, 12, 13, 15, 16, 17, 18}", "FR2s": "{1, 2, 3, 4, 5, 6, 7}", "XHs": "{1, 2, 3, 4, 5, 6, 7, 8, 9, 10, 11, 12, 13, 14}", "BLANKs": "{1, 2}",
@@ -124,6 +124,10 @@ def early_jobs(cases, rng, stride):
                 k = rng.randrange(1, n)
                 for pieces in ([n], [k, n - k], G.segmentation(rng, n)):
                     jobs.append((len(jobs) + 1, w, mode, app, pieces))
+        # an application whose finish() raises (after noting it): still exactly one end notification
+        for pieces in ([n], [rng.randrange(1, n), 0]):
+            pieces = [p for p in pieces if p] if pieces[-1] else [pieces[0], n - pieces[0]]
+            jobs.append((len(jobs) + 1, w, "raise", "delegate", pieces))
     return jobs
 
 
